@@ -43,9 +43,7 @@ theorem mono_step (pt : PrecTable) : ∀ f : Nat,
             | nil => exact h
             | cons t' r'' =>
               cases t' <;> first | exact h | (simp only at h ⊢; exact ihl _ _ _ _ h hr)
-          | nilExpr r' => rw [hp] at h; rw [ihp _ _ _ hp (by simp)]; exact h
           | err r' => rw [hp] at h; rw [ihp _ _ _ hp (by simp)]; exact h
-          | panic => rw [hp] at h; rw [ihp _ _ _ hp (by simp)]; exact h
         | op o =>
           simp only [pratt] at h ⊢
           by_cases hpre : pt.prefixOp o = true
@@ -55,9 +53,7 @@ theorem mono_step (pt : PrecTable) : ∀ f : Nat,
             | ok e rest' =>
               rw [hp] at h; rw [ihp _ _ _ hp (by simp)]
               simp only at h ⊢; exact ihl _ _ _ _ h hr
-            | nilExpr r' => rw [hp] at h; rw [ihp _ _ _ hp (by simp)]; exact h
             | err r' => rw [hp] at h; rw [ihp _ _ _ hp (by simp)]; exact h
-            | panic => rw [hp] at h; rw [ihp _ _ _ hp (by simp)]; exact h
           · simp only [hpre] at h ⊢; exact h
     · intro lhs toks m r h hr
       cases toks with
@@ -83,9 +79,7 @@ theorem mono_step (pt : PrecTable) : ∀ f : Nat,
               | ok e rest' =>
                 rw [hp] at h; rw [ihp _ _ _ hp (by simp)]
                 simp only at h ⊢; exact ihl _ _ _ _ h hr
-              | nilExpr r' => rw [hp] at h; rw [ihp _ _ _ hp (by simp)]; exact h
               | err r' => rw [hp] at h; rw [ihp _ _ _ hp (by simp)]; exact h
-              | panic => rw [hp] at h; rw [ihp _ _ _ hp (by simp)]; exact h
           · simp only [hb] at h ⊢; exact h
 
 theorem pratt_mono (pt : PrecTable) {f F : Nat} (hle : f ≤ F) {toks : List PTok} {m : Int} {r : PRes}
@@ -408,9 +402,9 @@ def renderNames : List String :=
   ["STRING", "NUMBER", "TRUE", "FALSE", "IDENTIFIER", "OPENPAREN", "CLOSEPAREN"]
     ++ (binaryOps ++ prefixOps).map opGoName
 
-/-- no token of a rendering ends an expression, and none is white space -/
+/-- no token of a rendering ends an expression, and none is white space or a comment -/
 def ExprEndOK (pt : PrecTable) : Bool :=
-  renderNames.all (fun n => !pt.exprEnd.contains n && !(n == "WS"))
+  renderNames.all (fun n => !pt.exprEnd.contains n && !(n == "WS") && !(n == "COMMENT"))
 
 def okTok : PTok → Prop
   | .op o => o ∈ binaryOps ++ prefixOps
@@ -436,7 +430,7 @@ theorem exprTokens_ok {pt : PrecTable} (hpt : ExprEndOK pt = true) (e : PTok) (h
     have := List.all_eq_true.mp hpt _ ht
     simp only [Bool.and_eq_true, Bool.not_eq_true'] at this
     have ih := exprTokens_ok hpt e he rest ts (fun t' ht' => h t' (List.mem_cons_of_mem _ ht'))
-    simp only [List.cons_append, exprTokens, isExprEnd, this.1, this.2, ih]
+    simp only [List.cons_append, exprTokens, isExprEnd, this.1.1, this.1.2, this.2, ih]
     simp
 
 theorem atomTok_ok (e : PExpr) : okTok (atomTok e) := by
